@@ -193,11 +193,34 @@ static void child_run(void *a_)
     char seqs[400]; int so = 0; seqs[0] = 0; for (int i = 0; i < nd && so < 360; i++) so += snprintf(seqs + so, sizeof seqs - so, "%s%s%s", i ? "," : "", i == illegalAt ? "!" : "", tname(dseq[i].type));
     vf_distinct("%s|%s|%d|f%d|%s|%d|%d", mx_vername[a->m->ver], a->m->name, a->role, a->flightNo, dvname[dv->kind], dv->pos, dv->type);
     /* feed one message at a time */
-    int firstAcceptedIllegal = -1;
+    int firstAcceptedIllegal = -1, completedEarly = 0, completedAt = -1;
     for (int i = 0; i < nd; i++) {
+        if (dv->kind != DV_NONE && !same && !k->dtls && (dseq[i].type == 20 || dseq[i].type == T_ENCFIN) && !is_dead(T)) {
+            /* transcript-consistent deviant peer: a real (malicious) peer knows the session secrets and sends the Finished value that
+               matches the sequence it actually sent, i.e. the one the receiver expects over ITS transcript.  Compute that value with
+               the receiver's own snapshot function and seal it with the sender's keys. */
+            unsigned char fin[4 + 64], vd[64]; int vl = -1; static unsigned char frec[256];
+            if (a->m->ver == MX_TLS13) {
+                int hl = a->m->suite == 0x1302 ? 48 : 32; psHmac_t hc; unsigned char trh[64];
+                MX_ENTER(); if (tls13DeriveFinishedKey(T->ssl, !MATRIX_IS_SERVER(T->ssl)) >= 0 && tls13TranscriptHashSnapshot(T->ssl, trh) >= 0 &&
+                    psHmacSingle(&hc, hl == 48 ? HMAC_SHA384 : HMAC_SHA256, T->ssl->sec.tls13FinishedKey, hl, trh, hl, vd) >= 0) vl = hl; MX_LEAVE();
+            } else { MX_ENTER(); vl = sslSnapshotHSHash(T->ssl, vd, PS_FALSE, PS_TRUE); MX_LEAVE(); }
+            if (vl > 0 && vl <= 64) {
+                fin[0] = 20; fin[1] = 0; fin[2] = 0; fin[3] = (unsigned char) vl; memcpy(fin + 4, vd, vl); vf_stat("consistent_finished_crafted", 1);
+                if (a->m->ver == MX_TLS13) { unit_t fu = { U_HS, 20, fin, 4 + vl, 1, 1 }; feed_unit(k, T, P, &fu); }
+                else if (T->ssl->flags & SSL_FLAGS_READ_SECURE) { memset(P->ssl->sec.seq, 0, 8); int n = mx_seal_as(P, 22, fin, 4 + vl, frec); if (n > 0 && !T->dead) mx_feed(T, frec, n); }
+                else { unit_t fu = { U_HS, 20, fin, 4 + vl, 0, 1 }; feed_unit(k, T, P, &fu); }
+                int dead2 = is_dead(T);
+                if (i == illegalAt && !dead2) firstAcceptedIllegal = i;
+                if (!dead2 && matrixSslHandshakeIsComplete(T->ssl) && !completedEarly) { completedEarly = 1; completedAt = i; }
+                if (dead2) break;
+                continue;
+            }
+        }
         feed_unit(k, T, P, &dseq[i]);
         int dead = is_dead(T);
         if (i == illegalAt && !dead && !k->dtls) firstAcceptedIllegal = i;
+        if (!dead && matrixSslHandshakeIsComplete(T->ssl) && !completedEarly) { completedEarly = 1; completedAt = i; }
         if (dead) break;
     }
     if (firstAcceptedIllegal >= 0) {
@@ -213,7 +236,13 @@ static void child_run(void *a_)
     }
     /* let the rest of the honest handshake run */
     mx_conn_run(k, NULL, NULL, 300);
-    int complete = matrixSslHandshakeIsComplete(T->ssl) && !is_dead(T);
+    /* completion observed at any point counts, whatever follows - unless it happened exactly when the complete honest flight had been
+       consumed as a prefix of the deviant sequence (what comes after a completed handshake is C15's subject) */
+    int honestPrefix = completedEarly && completedAt == nu - 1;
+    for (int j = 0; honestPrefix && j < nu; j++) { int fin = (dseq[j].type == 20 || dseq[j].type == T_ENCFIN) && (u[j].type == 20 || u[j].type == T_ENCFIN);   /* a crafted Finished stands for the honest one */
+        if (!fin && (dseq[j].type != u[j].type || dseq[j].len != u[j].len || memcmp(dseq[j].body, u[j].body, u[j].len))) honestPrefix = 0; }
+    int complete = ((matrixSslHandshakeIsComplete(T->ssl) && !is_dead(T)) || completedEarly) && !honestPrefix;
+    if (honestPrefix) vf_stat("completed_on_honest_prefix_then_extra_message", 1);
     if (dv->kind == DV_NONE || same) {
         if (!mx_conn_established(k)) vf_violation("c06:harness:legal-reframed-sequence-rejected", cur_desc, "one-message-per-record re-framing of the honest flight [%s] was refused (mode %s %s)", seqs, mx_vername[a->m->ver], a->m->name);
         else vf_stat("positive_controls_ok", 1);
@@ -285,7 +314,7 @@ static void run_mode(const hmode_t *m, int role)
                 /* advance the reference state over the honest flight */
                 unit_t u[24]; mx_ep *P = role == MX_SERVER ? &k.c : &k.s; int nu = split_flight(&k, T, P, k.q[d] + k.qoff[d], k.qlen[d] - k.qoff[d], u, 24);
                 gctx_t g = { m, role, resumedActually, clientSentCert, ticketNeg };
-                for (int i = 0; i < nu; i++) { int ns = g_next(&g, gstate, u[i].type); if (ns < 0 && k.dtls) { break; } if (ns < 0) { vf_violation("c06:harness:grammar-rejects-honest-flight", m->name, "reference grammar rejects honest message %s in state %d (%s/%s role %d)", tname(u[i].type), gstate, mx_vername[m->ver], m->name, role); break; } gstate = ns; free(u[i].body); }
+                int bad = 0; for (int i = 0; i < nu; i++) { int ns = bad ? -1 : g_next(&g, gstate, u[i].type); if (ns < 0 && !bad) { bad = 1; if (!k.dtls) vf_violation("c06:harness:grammar-rejects-honest-flight", m->name, "reference grammar rejects honest message %s in state %d (%s/%s role %d)", tname(u[i].type), gstate, mx_vername[m->ver], m->name, role); } if (!bad) gstate = ns; free(u[i].body); }
                 flightNo++;
             }
         }
